@@ -709,7 +709,7 @@ class Fn:
         [(switch_bb, {variant_name: target}, otherwise_bb, discr_stmt)]."""
         out = []
         for s in self.stmts():
-            if s.rv_kind() == "discr" and s.rv[2] and path_match(strip_generics(s.rv[2]), adt_suffix):
+            if s.rv_kind() == "discr" and s.rv[2] and (adt_suffix is None or path_match(strip_generics(s.rv[2]), adt_suffix)):
                 names = variant_names(s.rv[2])
                 for b in range(self.nblocks):
                     sw = self.switch_on(b)
